@@ -1,6 +1,6 @@
 (* Check/Script.v — boolean checkers for edit scripts (executable; reflection
    lemmas against Spec/Script.v are in Proofs/CheckScript.v). *)
-From Similar Require Import Model.Base.
+From Similar Require Import Model.Base Spec.Script.
 
 Section Checkers.
   Variable cmp : cmpf.   (* new[j] == old[i]; Panic = out of bounds *)
@@ -13,14 +13,6 @@ Section Checkers.
               | Ok true => seg_eq (S o) (S n) l'
               | _ => false
               end
-    end.
-
-  (* cursor at the end of the maximal run of non-equal calls at the head *)
-  Fixpoint run_ends (i j : nat) (cs : list call) : nat * nat :=
-    match cs with
-    | CDel _ l _ :: r => run_ends (i + l) j r
-    | CIns _ _ l :: r => run_ends i (j + l) r
-    | _ => (i, j)
     end.
 
   (* C01: raw call sequence.  (i0,j0) = cursor at the start of the current run
@@ -115,11 +107,6 @@ Section Checkers.
 
   Definition check_normal (ops : list op) : bool :=
     check_alternating ops && check_insert_latest ops.
-
-  (* cost *)
-  Definition deleted (ops : list op) : nat := fold_right (fun x a => match x with Equal _ _ _ => 0 | _ => op_old_len x end + a) 0 ops.
-  Definition inserted (ops : list op) : nat := fold_right (fun x a => match x with Equal _ _ _ => 0 | _ => op_new_len x end + a) 0 ops.
-  Definition equal_total (ops : list op) : nat := fold_right (fun x a => match x with Equal _ _ l => l | _ => 0 end + a) 0 ops.
 
   (* length of a longest common subsequence of old[os..oe) and new[ns..ne):
      row-by-row dynamic programme, independent of the model's make_table.
